@@ -127,8 +127,8 @@ class ParseUserData:
             lines = []
             line = ''
             # Bytes that are not valid UTF-8 are shown as '.' like any other
-            # non-printable character.
-            for ch in bytes.decode(self.data, errors='replace').strip().rstrip('\x00'):
+            # non-printable character; only the NUL padding is dropped.
+            for ch in bytes.decode(self.data, errors='replace').rstrip('\x00'):
                 if ch != '\n':
                     if ord(ch) < ord(' ') or ord(ch) > ord('~'):
                         ch = '.'
